@@ -326,6 +326,9 @@ class RTDC_TDMS(RTDCBase):
                     # - in nptdms 0.8.2, `data` is `None`
                     # - in nptdms 0.9.0, `data` is an array of length 0
                     continue
+                # the array is handed out to the user
+                data = np.asarray(data).view()
+                data.setflags(write=False)
                 self._events[naming.tdms2dclab[arg]] = data
         if len(self._events) == 0:
             raise IncompleteTDMSFileFormatError(
